@@ -156,3 +156,53 @@ Proof.
   intros Hax. unfold mk_part. rewrite forallb_app. cbn [forallb]. rewrite Hax.
   rewrite andb_false_r. reflexivity.
 Qed.
+
+(* ---------- index lists with negative entries / out-of-range entries ---------- *)
+Definition wrap_idx (n i : Z) : Z := if (i <? 0)%Z then (i + n)%Z else i.
+Lemma fancy_idx_wrap (n : Z) (l : list Z) : (forall i, In i l -> (- n <= i < n)%Z) ->
+  fancy_idx n l = Ok (map (wrap_idx n) l).
+Proof.
+  induction l as [|j l IH]; intros Hin; [reflexivity|]. unfold fancy_idx in *. cbn [mapM map].
+  pose proof (Hin j (or_introl eq_refl)) as Hj.
+  replace ((- n <=? j)%Z && (j <? n)%Z) with true
+    by (symmetry; apply andb_true_iff; split; [apply Z.leb_le|apply Z.ltb_lt]; lia).
+  cbn [bind]. rewrite IH by (intros; apply Hin; right; assumption). reflexivity.
+Qed.
+Lemma fancy_idx_out_of_range (n : Z) (l : list Z) :
+  (exists i, In i l /\ (i < - n \/ n <= i)%Z) -> fancy_idx n l = IndexErr.
+Proof.
+  induction l as [|j l IH]; intros (i & Hin & Hi); [destruct Hin|]. unfold fancy_idx in *. cbn [mapM].
+  destruct ((- n <=? j)%Z && (j <? n)%Z) eqn:E; [|reflexivity]. cbn [bind].
+  destruct Hin as [->|Hin].
+  - apply andb_prop in E. destruct E as [E1 E2]. apply Z.leb_le in E1. apply Z.ltb_lt in E2. lia.
+  - rewrite IH by (exists i; split; assumption). reflexivity.
+Qed.
+Lemma getitem_list_wrapped (ax : Raxis) (p' : list Raxis) (l : list Z) :
+  valid ax -> Forall valid p' -> (1 <= length l)%nat ->
+  (forall i, In i l -> (- zlen (a_cs ax) <= i < zlen (a_cs ax))%Z) ->
+  zincr (map (wrap_idx (zlen (a_cs ax))) l) ->
+  getitem_list (ax :: p') l = Ok (list_ax ax (map (wrap_idx (zlen (a_cs ax))) l) :: p') /\
+  valid (list_ax ax (map (wrap_idx (zlen (a_cs ax))) l)).
+Proof.
+  intros Hv Hp Hne Hin Hinc.
+  destruct l as [|i0 r]; [cbn [length] in Hne; lia|].
+  set (l := i0 :: r) in *. set (idxs := map (wrap_idx (zlen (a_cs ax))) l) in *.
+  assert (Hr : forall i, In i idxs -> (0 <= i < zlen (a_cs ax))%Z).
+  { intros i Hi. unfold idxs in Hi. apply in_map_iff in Hi. destruct Hi as (j & <- & Hj).
+    pose proof (Hin j Hj). unfold wrap_idx. destruct (j <? 0)%Z eqn:E; [apply Z.ltb_lt in E|apply Z.ltb_ge in E]; lia. }
+  assert (Hl : (1 <= length idxs)%nat) by (unfold idxs; rewrite map_length; exact Hne).
+  pose proof (list_valid ax idxs Hv Hl Hinc Hr) as Hlv. split; [|exact Hlv].
+  unfold getitem_list. unfold l at 1. fold l.
+  rewrite fancy_idx_wrap by exact Hin. cbn [bind]. fold idxs. fold (list_ax ax idxs).
+  match goal with |- context [nltb ?a ?b] => destruct (nltb a b) eqn:Elt end.
+  - exfalso. apply ltb_true in Elt. pose proof (v_lohi _ Hlv) as Hle.
+    unfold list_ax in Hle. cbn [a_lo a_hi] in Hle. unfold nth0 in Elt. numR. lra.
+  - unfold nth0. apply (mk_part_valid (list_ax ax idxs :: p')). constructor; assumption.
+Qed.
+Lemma getitem_list_out_of_range (ax : Raxis) (p' : list Raxis) (l : list Z) :
+  (exists i, In i l /\ (i < - zlen (a_cs ax) \/ zlen (a_cs ax) <= i)%Z) ->
+  getitem_list (ax :: p') l = IndexErr.
+Proof.
+  intros Hex. unfold getitem_list. destruct l as [|i0 r] eqn:El; [destruct Hex as (i & [] & _)|].
+  rewrite <- El in *. rewrite fancy_idx_out_of_range by exact Hex. reflexivity.
+Qed.
